@@ -104,6 +104,7 @@ def rel_alpha(q: ast.AST, draw) -> ast.AST:
 
 
 ARG_BASE = 1000
+S_BASE = 500
 
 
 def rel_reserved(q: ast.AST, draw):
@@ -117,7 +118,12 @@ def rel_reserved(q: ast.AST, draw):
     for _ in range(draw(st.integers(1, 2))):
         node = lambdas[draw(st.integers(0, len(lambdas) - 1))]
         a = node.args.args[0]
-        new = f"arg_{ARG_BASE + draw(st.sampled_from([0, 0, 1, 2, 3]))}"
+        params = sorted({x.arg for l_ in lambdas for x in l_.args.args})
+        if draw(st.integers(0, 2)) == 0:
+            # ... or the name the executor itself would give to a shadowing parameter (<name>_s<n>, n from a counter that outcome() pins)
+            new = f"{draw(st.sampled_from(params))}_s{S_BASE + draw(st.sampled_from([0, 0, 1, 2]))}"
+        else:
+            new = f"arg_{ARG_BASE + draw(st.sampled_from([0, 0, 1, 2, 3]))}"
         if new in used or a.arg.startswith("arg_"):
             continue
         used.add(new)
@@ -312,8 +318,30 @@ def shadow_chain(draw, backend):
 
 
 @st.composite
+def reserved_shadow(draw, backend):
+    """three nested lambdas x > j > q where q's lambda mentions x but not j.  Variant: q is called j (pure shadowing: the executor will rename it to
+    j_s<n>) and x is called by the very name the executor is about to invent (outcome() pins its counter to S_BASE)."""
+    sch = standard_schema(backend)
+    acc, bank, vecs, nums = CHAIN_PROFILE[backend]
+    v1, v2 = draw(st.sampled_from(vecs)), draw(st.sampled_from(vecs))
+    m = draw(st.sampled_from(nums))
+    c = draw(st.sampled_from(["0", "1.5", "-1"]))
+    agg = draw(st.sampled_from(["Count()", "Sum()"]))
+    k = draw(st.sampled_from([0, 0, 1]))
+
+    def text(x, j, q):
+        inner = f"{x}.{v2}().Where(lambda {q}: {q} > {x}.{m}() + {c}).{agg}"
+        return f"Select(SelectMany({dataset_text(sch)}, lambda e: e.{acc}({bank!r})), lambda {x}: {x}.{v1}().Select(lambda {j}: {inner} + {j}))"
+
+    return text("x0", "j", "q0"), text(f"j_s{S_BASE + k}", "j", "j"), 2
+
+
+@st.composite
 def cases(draw, backend):
-    rel = draw(st.sampled_from(["qastle", "alpha", "shadow", "shadow", "metadata", "fuse", "shadow-chain", "reserved"]))
+    rel = draw(st.sampled_from(["qastle", "alpha", "shadow", "shadow", "metadata", "fuse", "shadow-chain", "reserved", "reserved-shadow"]))
+    if rel == "reserved-shadow":
+        a, b, n = draw(reserved_shadow(backend))
+        return {"backend": backend, "rel": "alpha", "a": a, "b": b, "nested": True, "info": {"reserved_names": n}, "labels": ["reserved-shadow"]}
     if rel == "shadow-chain":
         a, b, n = draw(shadow_chain(backend))
         return {"backend": backend, "rel": "shadow", "a": a, "b": b, "nested": True, "info": {"shadow_pairs": n, "shadow_chain": True}, "labels": ["shadow-chain"]}
@@ -349,6 +377,15 @@ def outcome(text_or_ast, backend):
     import func_adl.ast.function_simplifier as _fs
 
     _fs.argument_var_counter = ARG_BASE
+    try:
+        import itertools
+
+        import func_adl_xAOD.common.executor as _ex
+
+        if hasattr(_ex, "_rename_shadowing_lambda_args"):
+            _ex._rename_shadowing_lambda_args._counter = itertools.count(S_BASE)
+    except ImportError:
+        pass
     try:
         return ("ok", translate(copy.deepcopy(text_or_ast) if not isinstance(text_or_ast, str) else text_or_ast, backend))
     except Exception as e:
